@@ -83,14 +83,13 @@ def parseDigits : Bytes → Nat → Option Nat
   | [], acc => some acc
   | b :: r, acc => if isDigit b then parseDigits r (acc * 10 + (b.toNat - 48)) else none
 
+def stripPlus : Bytes → Bytes
+  | 43 :: r => r   -- '+'
+  | s => s
+
 def parseUnsigned (max : Nat) (s : Bytes) : Option Nat :=
-  let body := match s with
-    | 43 :: r => r   -- '+'
-    | _ => s
-  if body.isEmpty then none else
-  match parseDigits body 0 with
-  | some n => if n ≤ max then some n else none
-  | none => none
+  if (stripPlus s).isEmpty then none else
+  (parseDigits (stripPlus s) 0).bind fun n => if n ≤ max then some n else none
 
 def parseU64 := parseUnsigned U64_MAX
 
@@ -111,6 +110,11 @@ def findSub [BEq α] (pat : List α) : List α → Option Nat
   | a :: as => if startsWith (a :: as) pat then some 0 else (findSub pat as).map (· + 1)
 
 def containsSub [BEq α] (pat l : List α) : Bool := (findSub pat l).isSome
+
+/-- a property of all 256 byte values, checked value by value -/
+theorem forall_u8 (P : UInt8 → Prop) (h : ∀ n, n < 256 → P (UInt8.ofNat n)) (x : UInt8) : P x := by
+  have := h x.toNat x.toNat_lt
+  simpa using this
 
 end Rust
 
